@@ -106,3 +106,38 @@ Print Assumptions add_timedelta_beyond_2_33_refuted.
 Theorem float_carry_chain_boundary_family : forallb route_exactb boundary_family = true /\ (length boundary_family >= 1400)%nat.
 Proof. exact chain_boundary_family_evaluated. Qed.
 Print Assumptions float_carry_chain_boundary_family.
+
+(* ---- the MODEL side itself: the hand-written Model/TzConvert.v EQUALS the machine translation of pendulum's own code (Gen/TzGlue.v:
+   src/pendulum/tz/timezone.py and src/pendulum/datetime.py translated from /repo on every run, tools/vlib/gens/g15_tz_glue.py), so a
+   semantic change of the code breaks one of these proofs, not only a source pin.  Bridge (Proofs/TzGlueFacts.v): dt_of W f tz = the datetime
+   object with wall W, fold f, tzinfo tz; res_of (Some tz) r = the object a model result (W', f') denotes in the zone of the timezone object tz;
+   gtz_ok t = a FixedTimezone's table is fixed_zone of its offset; same_obj a b = equal identity tags mean the same object.  The native
+   operations the code calls are the primitives of Model/TzGlueObj.v, each tied to CPython's source by a spec_is_stdlib_* theorem (C02, C11). ---- *)
+From PV Require Import Spec.NativeDT Gen.AddDuration Model.TzGlueObj Gen.TzGlue Proofs.TzGlueFacts.
+
+(* DateTime.add(hours=, minutes=, seconds=, microseconds=) on an aware value = add_fixed: subtract the utcoffset, add_duration (translated),
+   re-attach UTC, tz.convert, rebuild *)
+Theorem model_is_code_add_fixed : forall t W f hours minutes seconds us, gtz_ok t -> same_obj g_UTC t -> wall_in_range W = true ->
+  let total := td_total_us 0 hours minutes seconds us in
+  -999999999 <= total / us_per_day <= 999999999 ->
+  glue_DateTime_add (dt_of W f (Some t)) 0 0 0 0 hours minutes seconds us = res_of (Some t) (add_fixed (gz_zone t) W f hours minutes seconds us).
+Proof. exact glue_add_fixed. Qed.
+Print Assumptions model_is_code_add_fixed.
+
+(* DateTime.add on a naive value = add_naive (the result of add_duration is rebuilt field by field, which needs it inside years 1..9999:
+   hypothesis on the result of the translated add_duration) *)
+Theorem model_is_code_add_naive : forall W f years months weeks days hours minutes seconds us, wall_in_range W = true ->
+  (forall r, py_add_duration (mkndt W true) years months weeks days hours minutes seconds us = Ok r -> wall_in_range (n_wall r) = true) ->
+  glue_DateTime_add (dt_of W f None) years months weeks days hours minutes seconds us =
+  res_of None (add_naive W f years months weeks days hours minutes seconds us).
+Proof. exact glue_add_naive. Qed.
+Print Assumptions model_is_code_add_naive.
+
+(* DateTime.add with calendar units on an aware value = add_calendar (wall-clock add_duration, then create with the default fold 1) *)
+Theorem model_is_code_add_calendar : forall t W f years months weeks days hours minutes seconds us, wall_in_range W = true ->
+  var_units years months weeks days = true ->
+  (forall r, py_add_duration (mkndt W true) years months weeks days hours minutes seconds us = Ok r -> wall_in_range (n_wall r) = true) ->
+  glue_DateTime_add (dt_of W f (Some t)) years months weeks days hours minutes seconds us =
+  res_of (Some t) (add_calendar (gz_zone t) (gz_fixed t) W years months weeks days hours minutes seconds us).
+Proof. exact glue_add_calendar. Qed.
+Print Assumptions model_is_code_add_calendar.
